@@ -6,6 +6,7 @@ import (
 	"math/big"
 	"strconv"
 	"strings"
+	"sync/atomic"
 	"testing"
 	"time"
 
@@ -19,6 +20,7 @@ import (
 
 	"github.com/ava-labs/hypersdk/chain"
 	"github.com/ava-labs/hypersdk/chain/chaintest"
+	"github.com/ava-labs/hypersdk/codec"
 	"github.com/ava-labs/hypersdk/fees"
 	"github.com/ava-labs/hypersdk/genesis"
 	"github.com/ava-labs/hypersdk/internal/validitywindow/validitywindowtest"
@@ -29,16 +31,26 @@ import (
 	"github.com/ava-labs/hypersdk/state/metadata"
 )
 
-// C07: a transaction is included only if its fee is at most Base.MaxFee.
+// C07: a transaction is included only if its fee is at most Base.MaxFee; what it is charged is
+// exactly the block's unit prices times its units under the block's rules, and only if it is
+// in the block.
 //
-//   c07 <prices> <units> <maxBlockUnits> <sponsor> <balance|-> <maxfee> <tsoff> <scope> <actions>
-//
-// One line = one transaction run through the three real decision points, each on a fresh
-// merkledb state {height, timestamp, fee, sponsor balance}:
-//   adm   = PreExecutor.PreExecute            (mempool admission, Submit path)
-//   proc  = Processor.Execute of a block containing only this tx (verification)
-//   build = Builder.BuildBlock with the tx alone in the mempool
+//   c07 <prices> <unitsR1> <unitsR2> <r2 = - | baseCompute,keyRead,keyAlloc,keyWrite> <maxBlockUnits>
+//       <sponsor> <balance|-> <maxfee> <tsoff> <scope> <actions>
+// One transaction OBJECT through the three real decision points, in the order of a node's life:
+//   adm   = PreExecutor.PreExecute (mempool admission) under the rules R1 in force now;
+//   then the rule factory switches to R2 (rules are a function of the timestamp: R1 before T, R2
+//   from T on; T = just after admission) and the SAME object is
+//   proc  = verified by Processor.Execute in a block with timestamp >= T, and
+//   build = built by Builder.BuildBlock at a time >= T.
+// A second, freshly constructed copy of the transaction (what a node that only sees the block
+// parses) is verified too and must produce the same Result and post-state.
 // Output: `adm=<ok|err:class> proc=<ok:fee|err> build=<inc:fee|skip>`.
+//
+//   blk <prices> <maxBlockUnits> <bal1|-> <bal2|-> <tx;tx;...>   tx = sponsorIdx/units/maxfee/tsoff/scope/actions
+// Several transactions in the mempool, one Builder.BuildBlock; MaxBlockUnits is small in some
+// dimension so that only some fit. Output: `inc=<0|1,...> fees=<fee|-,...> bals=<b1|-,b2|->`.
+//
 // Unit prices are set through Rules.MinUnitPrice (empty fee state => next price = minimum).
 // Timestamps are relative: tx expiry = (wall clock rounded down to 1 s) + tsoff.
 
@@ -46,11 +58,11 @@ type c07Mempool struct {
 	txs []*chain.Transaction
 }
 
-func (m *c07Mempool) Len(context.Context) int                    { return len(m.txs) }
-func (*c07Mempool) Size(context.Context) int                     { return 0 }
+func (m *c07Mempool) Len(context.Context) int                      { return len(m.txs) }
+func (*c07Mempool) Size(context.Context) int                       { return 0 }
 func (m *c07Mempool) Add(_ context.Context, t []*chain.Transaction) { m.txs = append(m.txs, t...) }
-func (*c07Mempool) StartStreaming(context.Context)               {}
-func (*c07Mempool) PrepareStream(context.Context, int)           {}
+func (*c07Mempool) StartStreaming(context.Context)                 {}
+func (*c07Mempool) PrepareStream(context.Context, int)             {}
 func (m *c07Mempool) Stream(context.Context, int) []*chain.Transaction {
 	t := m.txs
 	m.txs = nil
@@ -58,60 +70,158 @@ func (m *c07Mempool) Stream(context.Context, int) []*chain.Transaction {
 }
 func (*c07Mempool) FinishStreaming(_ context.Context, r []*chain.Transaction) int { return len(r) }
 
+// c07Rules: the rules are a function of the timestamp — r1 before T, r2 from T on.
+type c07Rules struct {
+	r1, r2 *genesis.Rules
+	T      atomic.Int64
+}
+
+func (s *c07Rules) GetRules(t int64) chain.Rules {
+	if t < s.T.Load() {
+		return s.r1
+	}
+	return s.r2
+}
+
+type c07Ctx struct {
+	r   *verifh.Run
+	ctx context.Context
+	mm  chain.MetadataManager
+	bh  *balance.PrefixBalanceHandler
+}
+
+func (c *c07Ctx) newState(base int64, bals map[string]uint64) merkledb.MerkleDB {
+	db, err := merkledb.New(c.ctx, memdb.New(), merkledb.Config{BranchFactor: merkledb.BranchFactor16, Tracer: trace.Noop})
+	if err != nil {
+		panic(err)
+	}
+	put := func(k, v []byte) {
+		if err := db.Put(k, v); err != nil {
+			panic(err)
+		}
+	}
+	put(chain.HeightKey(c.mm.HeightPrefix()), verifx.PutU64(0))
+	put(chain.TimestampKey(c.mm.TimestampPrefix()), verifx.PutU64(uint64(base-1000)))
+	put(chain.FeeKey(c.mm.FeePrefix()), []byte{})
+	for k, v := range bals {
+		put([]byte(k), verifx.PutU64(v))
+	}
+	return db
+}
+
+type getter interface {
+	GetValue(context.Context, []byte) ([]byte, error)
+}
+
+func (c *c07Ctx) balOf(v getter, key []byte) (*big.Int, bool) {
+	b, err := v.GetValue(c.ctx, key)
+	if err != nil {
+		return new(big.Int), false
+	}
+	u, _ := verifx.U64(b)
+	return new(big.Int).SetUint64(u), true
+}
+
+func mkRules(prices, maxU fees.Dimensions, r2 string) (*genesis.Rules, error) {
+	rules := genesis.NewDefaultRules()
+	rules.MinUnitPrice = prices
+	rules.MaxBlockUnits = maxU
+	rules.WindowTargetUnits = fees.Dimensions{1 << 40, 1 << 40, 1 << 40, 1 << 40, 1 << 40}
+	if r2 != "-" {
+		f := strings.Split(r2, ",")
+		if len(f) != 4 {
+			return nil, fmt.Errorf("bad r2")
+		}
+		var v [4]uint64
+		for i := range f {
+			x, err := strconv.ParseUint(f[i], 10, 32)
+			if err != nil {
+				return nil, err
+			}
+			v[i] = x
+		}
+		rules.BaseComputeUnits, rules.StorageKeyReadUnits, rules.StorageKeyAllocateUnits, rules.StorageKeyWriteUnits = v[0], v[1], v[2], v[3]
+	}
+	return rules, nil
+}
+
+func parseActs(ct *verifx.C03Tx, acts string) error {
+	if acts == "none" {
+		return nil
+	}
+	for _, as := range strings.Split(acts, "|") {
+		a, err := verifx.ParseScriptAction(as)
+		if err != nil {
+			return err
+		}
+		ct.Actions = append(ct.Actions, a)
+	}
+	return nil
+}
+
+// buildTx constructs a new transaction object (fresh caches) from its description.
+func buildTx(sponsor codec.Address, maxFee uint64, ts int64, scope, acts string, chainID ids.ID) (*chain.Transaction, error) {
+	ct := &verifx.C03Tx{Sponsor: sponsor, TS: ts, MaxFee: maxFee, AuthS: -1, AuthE: -1}
+	var err error
+	if ct.Scope, err = verifx.ParseScope(scope); err != nil {
+		return nil, err
+	}
+	if err := parseActs(ct, acts); err != nil {
+		return nil, err
+	}
+	return ct.Build(&verifx.Env{ChainID: chainID})
+}
+
 func TestVerifC07(t *testing.T) {
 	r := verifh.Start("C07")
 	defer r.Finish()
-	ctx := context.Background()
-	mm := metadata.NewDefaultManager()
-	bh := balance.NewPrefixBalanceHandler([]byte{metadata.DefaultMinimumPrefix})
-	sponsor := verifx.Addr(1)
-	sponsorHex := verifh.Hex(sponsor[:])
-	sk := bh.BalanceKey(sponsor)
+	c := &c07Ctx{r: r, ctx: context.Background(), mm: metadata.NewDefaultManager(),
+		bh: balance.NewPrefixBalanceHandler([]byte{metadata.DefaultMinimumPrefix})}
+	ctx, bh, mm := c.ctx, c.bh, c.mm
+	sponsors := []codec.Address{verifx.Addr(1), verifx.Addr(2)}
+	sponsorHex := verifh.Hex(sponsors[0][:])
+	sks := [][]byte{bh.BalanceKey(sponsors[0]), bh.BalanceKey(sponsors[1])}
 	k1 := "aa0001"
+	chainID := genesis.NewDefaultRules().GetChainID()
+	defMax := genesis.NewDefaultRules().MaxBlockUnits
+	nowBase := func() int64 { return (time.Now().UnixMilli() / 1000) * 1000 }
 
-	mkLine := func(prices fees.Dimensions, maxU fees.Dimensions, bal string, maxFee uint64, tsoff int64, scope, acts string) (string, fees.Dimensions) {
-		// units of the real transaction (the timestamp's varint width is the same for every
-		// wall-clock value in this century)
-		env := verifx.NewEnv()
-		ct := &verifx.C03Tx{Sponsor: sponsor, TS: (time.Now().UnixMilli()/1000)*1000 + tsoff, MaxFee: maxFee, AuthS: -1, AuthE: -1}
-		var err error
-		if ct.Scope, err = verifx.ParseScope(scope); err != nil {
-			panic(err)
-		}
-		if acts != "none" {
-			for _, as := range strings.Split(acts, "|") {
-				a, err := verifx.ParseScriptAction(as)
-				if err != nil {
-					panic(err)
-				}
-				ct.Actions = append(ct.Actions, a)
-			}
-		}
-		tx, err := ct.Build(env)
+	unitsOf := func(sp codec.Address, maxFee uint64, tsoff int64, scope, acts string, rules *genesis.Rules) fees.Dimensions {
+		tx, err := buildTx(sp, maxFee, nowBase()+tsoff, scope, acts, chainID)
 		if err != nil {
 			panic(err)
 		}
-		u, err := tx.Units(bh, env.Rules)
+		u, err := tx.Units(bh, rules)
 		if err != nil {
 			panic(err)
 		}
-		return fmt.Sprintf("c07 %s %s %s %s %s %d %d %s %s", verifx.DimsString(prices), verifx.DimsString(u), verifx.DimsString(maxU),
-			sponsorHex, bal, maxFee, tsoff, scope, acts), u
+		return u
 	}
 
 	lines := r.ReplayLines()
 	if lines == nil {
 		rng := r.RNG
-		defMax := genesis.NewDefaultRules().MaxBlockUnits
+		zero := fees.Dimensions{}
+		mkC07 := func(prices, maxU fees.Dimensions, r2, bal string, maxFee uint64, tsoff int64, scope, acts string) (string, fees.Dimensions) {
+			ra, _ := mkRules(prices, maxU, "-")
+			rb, err := mkRules(prices, maxU, r2)
+			if err != nil {
+				panic(err)
+			}
+			u1 := unitsOf(sponsors[0], maxFee, tsoff, scope, acts, ra)
+			u2 := unitsOf(sponsors[0], maxFee, tsoff, scope, acts, rb)
+			return fmt.Sprintf("c07 %s %s %s %s %s %s %s %d %d %s %s", verifx.DimsString(prices), verifx.DimsString(u1), verifx.DimsString(u2), r2,
+				verifx.DimsString(maxU), sponsorHex, bal, maxFee, tsoff, scope, acts), u2
+		}
 		hundred := fees.Dimensions{100, 100, 100, 100, 100}
 		// corpus: the shape of vm.TestSubmitTx/valid_tx — default minimum price 100, MaxFee 1000
-		l, _ := mkLine(hundred, defMax, "1000000000", 1000, 30000, "-", ".")
+		l, _ := mkC07(hundred, defMax, "-", "1000000000", 1000, 30000, "-", ".")
 		lines = append(lines, l)
-		l, _ = mkLine(hundred, defMax, "1000000000", 0, 30000, k1+":7", "w:"+k1+":01")
+		l, _ = mkC07(hundred, defMax, "-", "1000000000", 0, 30000, k1+":7", "w:"+k1+":01")
 		lines = append(lines, l)
-		l, _ = mkLine(fees.Dimensions{1, 1, 1, 1, 1}, defMax, "5000", 1, 30000, "-", "none")
+		l, _ = mkC07(fees.Dimensions{1, 1, 1, 1, 1}, defMax, "-", "5000", 1, 30000, "-", "none")
 		lines = append(lines, l)
-		for i := 0; i < r.N(600, 8000); i++ {
+		randPrices := func() fees.Dimensions {
 			var prices fees.Dimensions
 			for d := range prices {
 				prices[d] = uint64(rng.Intn(4))
@@ -119,20 +229,32 @@ func TestVerifC07(t *testing.T) {
 					prices[d] = 100
 				}
 			}
-			scope, acts := "-", "."
+			return prices
+		}
+		randActs := func() (string, string) {
 			switch rng.Intn(5) {
 			case 0:
-				acts = "none"
+				return "-", "none"
 			case 1:
-				scope, acts = k1+":7", "w:"+k1+":0102,r:"+k1
+				return k1 + ":7", "w:" + k1 + ":0102,r:" + k1
 			case 2:
-				scope, acts = k1+":7", "w:"+k1+":01|x"
+				return k1 + ":7", "w:" + k1 + ":01|x"
 			case 3:
-				acts = ".|."
+				return "-", ".|."
 			}
+			return "-", "."
+		}
+		for i := 0; i < r.N(380, 6000); i++ {
+			prices := randPrices()
+			scope, acts := randActs()
 			maxU := defMax
 			if rng.Chance(10) {
 				maxU[0] = uint64(100 + rng.Intn(200)) // bandwidth limit around the tx size
+			}
+			// rules of the block differ from the rules at admission in 45% of the cases
+			r2 := "-"
+			if rng.Chance(45) {
+				r2 = fmt.Sprintf("%d,%d,%d,%d", 1+rng.Intn(6), 1+rng.Intn(12), 10+rng.Intn(30), 1+rng.Intn(25))
 			}
 			tsoff := int64(30000)
 			switch rng.Intn(14) {
@@ -145,8 +267,8 @@ func TestVerifC07(t *testing.T) {
 			case 3:
 				tsoff = 10000
 			}
-			_, u := mkLine(prices, maxU, "-", 0, tsoff, scope, acts)
-			fee := verifx.BigFee(prices, u).Uint64()
+			_, u := mkC07(prices, maxU, r2, "-", 0, tsoff, scope, acts)
+			fee := verifx.BigFee(prices, u).Uint64() // fee under the block's rules
 			var maxFee uint64
 			switch rng.Intn(7) {
 			case 0:
@@ -180,110 +302,273 @@ func TestVerifC07(t *testing.T) {
 			default:
 				bal = strconv.FormatUint(fee+uint64(rng.Intn(1_000_000)), 10)
 			}
-			l, _ := mkLine(prices, maxU, bal, maxFee, tsoff, scope, acts)
+			l, _ := mkC07(prices, maxU, r2, bal, maxFee, tsoff, scope, acts)
 			lines = append(lines, l)
+		}
+		// blocks that fill up: n transactions, limits chosen so that only some of them fit
+		for i := 0; i < r.N(160, 3000); i++ {
+			prices := randPrices()
+			ra, _ := mkRules(prices, defMax, "-")
+			n := 2 + rng.Intn(5)
+			type td struct {
+				sp           int
+				scope, acts  string
+				maxFee       uint64
+				u            fees.Dimensions
+			}
+			tds := make([]td, n)
+			total := zero
+			for j := range tds {
+				// every tx of the block declares the same key with Write, so that the executor
+				// must run them in mempool order (conflicting tasks are never reordered)
+				sc := k1 + ":7"
+				ac := []string{".", "w:" + k1 + ":0102,r:" + k1, "w:" + k1 + ":01|x", ".|.", "r:" + k1}[rng.Intn(5)]
+				sp := 0
+				if rng.Chance(35) {
+					sp = 1
+				}
+				tds[j] = td{sp: sp, scope: sc, acts: ac, maxFee: rng.Pick64()/8*8 + uint64(j)} // distinct => distinct tx ids
+				tds[j].u = unitsOf(sponsors[sp], tds[j].maxFee, 30000, sc, ac, ra)
+				for d := range total {
+					total[d] += tds[j].u[d]
+				}
+			}
+			maxU := defMax
+			if rng.Chance(85) {
+				// one dimension admits only part of the demand (between one tx and all but one unit)
+				d := rng.Intn(fees.FeeDimensions)
+				lo := tds[0].u[d]
+				if total[d] > lo {
+					maxU[d] = lo + uint64(rng.Intn(int(total[d]-lo)))
+				}
+			}
+			bals := [2]string{"-", "-"}
+			for s := range bals {
+				if rng.Chance(92) {
+					bals[s] = strconv.FormatUint(uint64(1_000_000+rng.Intn(1_000_000)), 10)
+				} else if rng.Chance(50) {
+					bals[s] = strconv.FormatUint(uint64(rng.Intn(2000)), 10)
+				}
+			}
+			parts := make([]string, n)
+			for j, x := range tds {
+				parts[j] = fmt.Sprintf("%d/%s/%d/%d/%s/%s", x.sp, verifx.DimsString(x.u), x.maxFee, 30000, x.scope, x.acts)
+			}
+			lines = append(lines, fmt.Sprintf("blk %s %s %s %s %s", verifx.DimsString(prices), verifx.DimsString(maxU), bals[0], bals[1], strings.Join(parts, ";")))
 		}
 	}
 
+	vw := &validitywindowtest.MockTimeValidityWindow[*chain.Transaction]{}
 	for _, l := range lines {
 		f := verifh.Fields(l)
-		if len(f) != 10 || f[0] != "c07" || f[4] != sponsorHex {
-			r.Emit(l, "bad-op")
-			continue
-		}
-		prices, e1 := verifx.ParseDims(f[1])
-		units, e2 := verifx.ParseDims(f[2])
-		maxU, e3 := verifx.ParseDims(f[3])
-		maxFee, e4 := strconv.ParseUint(f[6], 10, 64)
-		tsoff, e5 := strconv.ParseInt(f[7], 10, 64)
-		scope, e6 := verifx.ParseScope(f[8])
-		var bal *uint64
-		var e7 error
-		if f[5] != "-" {
-			b, err := strconv.ParseUint(f[5], 10, 64)
-			bal, e7 = &b, err
-		}
-		ct := &verifx.C03Tx{Sponsor: sponsor, MaxFee: maxFee, AuthS: -1, AuthE: -1, Scope: scope}
-		var e8 error
-		if f[9] != "none" {
-			for _, as := range strings.Split(f[9], "|") {
-				a, err := verifx.ParseScriptAction(as)
-				if err != nil {
-					e8 = err
-					break
-				}
-				ct.Actions = append(ct.Actions, a)
-			}
-		}
-		if e1 != nil || e2 != nil || e3 != nil || e4 != nil || e5 != nil || e6 != nil || e7 != nil || e8 != nil || (len(ct.Actions) == 0 && len(scope) > 0) {
-			r.Emit(l, "bad-op")
-			continue
-		}
-
-		rules := genesis.NewDefaultRules()
-		rules.MinUnitPrice = prices
-		rules.MaxBlockUnits = maxU
-		rules.WindowTargetUnits = fees.Dimensions{1 << 40, 1 << 40, 1 << 40, 1 << 40, 1 << 40}
-		rf := &genesis.ImmutableRuleFactory{Rules: rules}
-		env := &verifx.Env{Rules: rules, ChainID: rules.GetChainID()}
-		base := (time.Now().UnixMilli() / 1000) * 1000
-		ct.TS = base + tsoff
-		tx, err := ct.Build(env)
-		if err != nil {
-			r.Emit(l, "bad-op")
-			continue
-		}
-		realUnits, uerr := tx.Units(bh, rules)
-		if uerr != nil || realUnits != units {
-			r.Emit(l, fmt.Sprintf("units-mismatch real=%s err=%v", verifx.DimsString(realUnits), uerr))
-			r.Violation("harness-units", "units on the op line differ from Transaction.Units: %s", l)
-			continue
-		}
-		fee := verifx.BigFee(prices, units)
-
-		newState := func() merkledb.MerkleDB {
-			db, err := merkledb.New(ctx, memdb.New(), merkledb.Config{BranchFactor: merkledb.BranchFactor16, Tracer: trace.Noop})
-			if err != nil {
-				panic(err)
-			}
-			put := func(k, v []byte) {
-				if err := db.Put(k, v); err != nil {
-					panic(err)
-				}
-			}
-			put(chain.HeightKey(mm.HeightPrefix()), verifx.PutU64(0))
-			put(chain.TimestampKey(mm.TimestampPrefix()), verifx.PutU64(uint64(base-1000)))
-			put(chain.FeeKey(mm.FeePrefix()), []byte{})
-			if bal != nil {
-				put(sk, verifx.PutU64(*bal))
-			}
-			return db
-		}
-		balOf := func(v interface {
-			GetValue(context.Context, []byte) ([]byte, error)
-		}) *big.Int {
-			b, err := v.GetValue(ctx, sk)
-			if err != nil {
-				return new(big.Int)
-			}
-			u, _ := verifx.U64(b)
-			return new(big.Int).SetUint64(u)
-		}
-		preBal := new(big.Int)
-		if bal != nil {
-			preBal.SetUint64(*bal)
-		}
-		vw := &validitywindowtest.MockTimeValidityWindow[*chain.Transaction]{}
 		metrics, err := chain.NewMetrics(prometheus.NewRegistry())
 		if err != nil {
 			panic(err)
 		}
-
 		// oracle verdicts are recorded after the op line has been emitted
 		var pending []func()
 		viol := func(key, format string, a ...any) {
 			pending = append(pending, func() { r.Violation(key, format, a...) })
 		}
+		flush := func() {
+			for _, p := range pending {
+				p()
+			}
+		}
+
+		// =========================================================== blk
+		if len(f) == 6 && f[0] == "blk" {
+			prices, e1 := verifx.ParseDims(f[1])
+			maxU, e2 := verifx.ParseDims(f[2])
+			bals := map[string]uint64{}
+			var e3 error
+			for s := 0; s < 2; s++ {
+				if f[3+s] != "-" {
+					b, err := strconv.ParseUint(f[3+s], 10, 64)
+					if err != nil {
+						e3 = err
+					}
+					bals[string(sks[s])] = b
+				}
+			}
+			rules, _ := mkRules(prices, maxU, "-")
+			base := nowBase()
+			type btx struct {
+				sp     int
+				units  fees.Dimensions
+				maxFee uint64
+				tx     *chain.Transaction
+			}
+			var txs []btx
+			bad := e1 != nil || e2 != nil || e3 != nil
+			for _, ts := range strings.Split(f[5], ";") {
+				p := strings.Split(ts, "/")
+				if len(p) != 6 {
+					bad = true
+					break
+				}
+				sp, ea := strconv.Atoi(p[0])
+				u, eb := verifx.ParseDims(p[1])
+				mf, ec := strconv.ParseUint(p[2], 10, 64)
+				tsoff, ed := strconv.ParseInt(p[3], 10, 64)
+				if ea != nil || eb != nil || ec != nil || ed != nil || sp < 0 || sp > 1 {
+					bad = true
+					break
+				}
+				tx, err := buildTx(sponsors[sp], mf, base+tsoff, p[4], p[5], chainID)
+				if err != nil {
+					bad = true
+					break
+				}
+				txs = append(txs, btx{sp: sp, units: u, maxFee: mf, tx: tx})
+			}
+			if bad || len(txs) == 0 {
+				r.Emit(l, "bad-op")
+				continue
+			}
+			mismatch := false
+			for _, x := range txs {
+				fresh, _ := chain.NewTransaction(x.tx.Base, x.tx.Actions, x.tx.Auth)
+				if u, err := fresh.Units(bh, rules); err != nil || u != x.units {
+					mismatch = true
+				}
+			}
+			if mismatch {
+				r.Emit(l, "units-mismatch")
+				r.Violation("harness-units", "units on the op line differ from Transaction.Units: %s", l)
+				continue
+			}
+			rf := &genesis.ImmutableRuleFactory{Rules: rules}
+			db := c.newState(base, bals)
+			parentBlk, err := chain.NewStatelessBlock(ids.Empty, base-1000, 0, nil, ids.Empty, &block.Context{})
+			if err != nil {
+				panic(err)
+			}
+			parent := &chain.OutputBlock{ExecutionBlock: chain.NewExecutionBlock(parentBlk), View: db}
+			mp := &c07Mempool{}
+			for _, x := range txs {
+				mp.txs = append(mp.txs, x.tx)
+			}
+			b := chain.NewBuilder(trace.Noop, rf, &logging.NoLog{}, mm, bh, mp, vw, metrics, chain.NewDefaultConfig())
+			eb, out, err := b.BuildBlock(ctx, &block.Context{}, parent)
+			if err != nil {
+				r.Emit(l, "build-err:"+verifx.ClassErr(err))
+				continue
+			}
+			resOf := map[ids.ID]*chain.Result{}
+			for i, tx := range eb.StatelessBlock.Txs {
+				resOf[tx.GetID()] = out.ExecutionResults.Results[i]
+			}
+			inc, fs := make([]string, len(txs)), make([]string, len(txs))
+			paid := [2]*big.Int{new(big.Int), new(big.Int)}
+			nInc := 0
+			for i, x := range txs {
+				res, ok := resOf[x.tx.GetID()]
+				if !ok {
+					inc[i], fs[i] = "0", "-"
+					continue
+				}
+				nInc++
+				inc[i], fs[i] = "1", strconv.FormatUint(res.Fee, 10)
+				paid[x.sp].Add(paid[x.sp], new(big.Int).SetUint64(res.Fee))
+				want := verifx.BigFee(prices, x.units)
+				if want.Cmp(new(big.Int).SetUint64(res.Fee)) != 0 || res.Units != x.units {
+					viol("fee-not-price-times-units", "built block: tx %d Result.Fee=%d units=%v, sum price*units=%s", i, res.Fee, res.Units, want)
+				} else if res.Fee > x.maxFee {
+					viol("fee-exceeds-maxfee", "Builder.BuildBlock included a tx with Result.Fee=%d > Base.MaxFee=%d", res.Fee, x.maxFee)
+				}
+			}
+			if out.ExecutionResults.UnitPrices != prices {
+				viol("harness-prices", "builder used unit prices %v, op line says %v", out.ExecutionResults.UnitPrices, prices)
+			}
+			// every sponsor's balance change = - sum of Result.Fee of ITS transactions in the block
+			bs := make([]string, 2)
+			for s := 0; s < 2; s++ {
+				post, present := c.balOf(out.View, sks[s])
+				bs[s] = "-"
+				if present {
+					bs[s] = post.String()
+				}
+				pre := new(big.Int).SetUint64(bals[string(sks[s])])
+				want := new(big.Int).Sub(pre, paid[s])
+				switch post.Cmp(want) {
+				case -1:
+					viol("charged-for-excluded-tx", "sponsor %d: balance %s -> %s but the fees of its %d-tx block inclusions sum to %s (block has %d of %d txs)", s+1, pre, post, nInc, paid[s], nInc, len(txs))
+				case 1:
+					viol("charged-differs-from-fee", "sponsor %d: balance %s -> %s, fees of its included txs sum to %s", s+1, pre, post, paid[s])
+				}
+			}
+			// the state every verifier derives from the built block must be the builder's
+			{
+				vdb := c.newState(base, bals)
+				p := chain.NewProcessor(trace.Noop, &logging.NoLog{}, rf, workers.NewSerial(), chaintest.NewDummyTestAuthEngines(), mm, bh, vw, metrics, chain.NewDefaultConfig())
+				vout, err := p.Execute(ctx, vdb, eb, true)
+				if err != nil {
+					viol("built-block-rejected", "Processor.Execute rejects the block the builder produced: %v", err)
+				} else {
+					for s := 0; s < 2; s++ {
+						a, _ := c.balOf(out.View, sks[s])
+						bb, _ := c.balOf(vout.View, sks[s])
+						if a.Cmp(bb) != 0 {
+							viol("builder-verifier-state-differ", "sponsor %d balance: builder %s, verifier %s", s+1, a, bb)
+						}
+					}
+				}
+			}
+			r.Emit(l, fmt.Sprintf("inc=%s fees=%s bals=%s", strings.Join(inc, ","), strings.Join(fs, ","), strings.Join(bs, ",")))
+			flush()
+			r.Count(fmt.Sprintf("blk-included:%d/%d", nInc, len(txs)))
+			if nInc < len(txs) && nInc > 0 {
+				r.Distinct(l)
+			}
+			continue
+		}
+
+		// =========================================================== c07
+		if len(f) != 12 || f[0] != "c07" || f[6] != sponsorHex {
+			r.Emit(l, "bad-op")
+			continue
+		}
+		prices, e1 := verifx.ParseDims(f[1])
+		units1, e2 := verifx.ParseDims(f[2])
+		units2, e2b := verifx.ParseDims(f[3])
+		maxU, e3 := verifx.ParseDims(f[5])
+		maxFee, e4 := strconv.ParseUint(f[8], 10, 64)
+		tsoff, e5 := strconv.ParseInt(f[9], 10, 64)
+		bals := map[string]uint64{}
+		var e7 error
+		if f[7] != "-" {
+			b, err := strconv.ParseUint(f[7], 10, 64)
+			bals[string(sks[0])], e7 = b, err
+		}
+		rules1, _ := mkRules(prices, maxU, "-")
+		rules2, e6 := mkRules(prices, maxU, f[4])
+		base := nowBase()
+		tx, e8 := buildTx(sponsors[0], maxFee, base+tsoff, f[10], f[11], chainID)
+		if e1 != nil || e2 != nil || e2b != nil || e3 != nil || e4 != nil || e5 != nil || e6 != nil || e7 != nil || e8 != nil {
+			r.Emit(l, "bad-op")
+			continue
+		}
+		fresh := func() *chain.Transaction {
+			t2, err := chain.NewTransaction(tx.Base, tx.Actions, tx.Auth)
+			if err != nil {
+				panic(err)
+			}
+			return t2
+		}
+		ru1, uerr1 := fresh().Units(bh, rules1)
+		ru2, uerr2 := fresh().Units(bh, rules2)
+		if uerr1 != nil || uerr2 != nil || ru1 != units1 || ru2 != units2 {
+			r.Emit(l, fmt.Sprintf("units-mismatch real=%s / %s", verifx.DimsString(ru1), verifx.DimsString(ru2)))
+			r.Violation("harness-units", "units on the op line differ from Transaction.Units: %s", l)
+			continue
+		}
+		fee1 := verifx.BigFee(prices, units1) // at admission (rules R1)
+		fee := verifx.BigFee(prices, units2)  // in the block (rules R2)
+		preBal := new(big.Int).SetUint64(bals[string(sks[0])])
+		rf := &c07Rules{r1: rules1, r2: rules2}
+		rf.T.Store(1 << 62)
+
 		// what the oracle checks for an included transaction
 		included := func(where string, res *chain.Result, pricesUsed fees.Dimensions, post *big.Int) {
 			if pricesUsed != prices {
@@ -291,52 +576,71 @@ func TestVerifC07(t *testing.T) {
 			}
 			got := new(big.Int).SetUint64(res.Fee)
 			switch {
-			case got.Cmp(fee) != 0:
-				viol("fee-not-price-times-units", "%s: Result.Fee=%d, sum price*units=%s", where, res.Fee, fee)
+			case got.Cmp(fee) != 0 || res.Units != units2:
+				viol("fee-not-price-times-units", "%s: Result.Fee=%d Result.Units=%v; under the block's rules units=%v, sum price*units=%s", where, res.Fee, res.Units, units2, fee)
 			case new(big.Int).Add(post, got).Cmp(preBal) != 0:
 				viol("charged-differs-from-fee", "%s: sponsor balance %s -> %s with Result.Fee=%d", where, preBal, post, res.Fee)
 			case res.Fee > maxFee:
 				// the fee is exactly price*units, it was charged, and it exceeds the signed maximum
-				viol("fee-exceeds-maxfee", "%s included a tx with Result.Fee=%d > Base.MaxFee=%d (prices %v units %v)", where, res.Fee, maxFee, prices, units)
+				viol("fee-exceeds-maxfee", "%s included a tx with Result.Fee=%d > Base.MaxFee=%d (prices %v units %v)", where, res.Fee, maxFee, prices, units2)
 			}
 		}
 
-		// ---- admission
+		// ---- admission (rules R1: the switch time T is still in the future)
 		adm := "ok"
 		pe := chain.NewPreExecutor(rf, vw, mm, bh)
-		if err := pe.PreExecute(ctx, nil, newState(), tx); err != nil {
+		if err := pe.PreExecute(ctx, nil, c.newState(base, bals), tx); err != nil {
 			adm = "err:" + verifx.ClassErr(err)
-		} else if fee.IsUint64() && fee.Uint64() > maxFee {
-			viol("fee-exceeds-maxfee", "PreExecutor.PreExecute admitted a tx whose fee at the next block's prices is %s > Base.MaxFee=%d", fee, maxFee)
+		} else if fee1.IsUint64() && fee1.Uint64() > maxFee {
+			viol("fee-exceeds-maxfee", "PreExecutor.PreExecute admitted a tx whose fee at the next block's prices is %s > Base.MaxFee=%d", fee1, maxFee)
+		}
+		// ---- the rules change: R2 from T on; everything below happens at timestamps >= T
+		T := time.Now().UnixMilli() + 1
+		rf.T.Store(T)
+		for time.Now().UnixMilli() < T+1 {
+			time.Sleep(time.Millisecond)
 		}
 
-		// ---- processor
-		proc := "err"
-		{
-			db := newState()
+		// ---- processor: the object that went through admission, and a freshly parsed copy
+		verify := func(t *chain.Transaction) (*chain.Result, *big.Int, fees.Dimensions, error) {
+			db := c.newState(base, bals)
 			root, err := db.GetMerkleRoot(ctx)
 			if err != nil {
 				panic(err)
 			}
-			blk, err := chain.NewStatelessBlock(ids.Empty, base, 1, []*chain.Transaction{tx}, root, &block.Context{})
+			blk, err := chain.NewStatelessBlock(ids.Empty, time.Now().UnixMilli(), 1, []*chain.Transaction{t}, root, &block.Context{})
 			if err != nil {
 				panic(err)
 			}
 			p := chain.NewProcessor(trace.Noop, &logging.NoLog{}, rf, workers.NewSerial(), chaintest.NewDummyTestAuthEngines(), mm, bh, vw, metrics, chain.NewDefaultConfig())
 			out, err := p.Execute(ctx, db, chain.NewExecutionBlock(blk), true)
-			if err == nil {
-				res := out.ExecutionResults.Results[0]
-				proc = fmt.Sprintf("ok:%d", res.Fee)
-				included("Processor.Execute", res, out.ExecutionResults.UnitPrices, balOf(out.View))
-			} else {
-				r.Count("proc-err:" + verifx.ClassErr(err))
+			if err != nil {
+				return nil, nil, fees.Dimensions{}, err
 			}
+			post, _ := c.balOf(out.View, sks[0])
+			return out.ExecutionResults.Results[0], post, out.ExecutionResults.UnitPrices, nil
+		}
+		proc := "err"
+		resA, postA, pricesA, errA := verify(tx)
+		resB, postB, _, errB := verify(fresh())
+		if errA == nil {
+			proc = fmt.Sprintf("ok:%d", resA.Fee)
+			included("Processor.Execute", resA, pricesA, postA)
+		} else {
+			r.Count("proc-err:" + verifx.ClassErr(errA))
+		}
+		switch {
+		case (errA == nil) != (errB == nil):
+			viol("units-depend-on-earlier-call", "the tx object that went through admission verifies with err=%v, a freshly parsed copy with err=%v", errA, errB)
+		case errA == nil && (resA.Units != resB.Units || resA.Fee != resB.Fee || postA.Cmp(postB) != 0):
+			viol("units-depend-on-earlier-call", "same block, same tx: the node that admitted it gets units=%v fee=%d balance=%s, a node that parsed it from the block gets units=%v fee=%d balance=%s",
+				resA.Units, resA.Fee, postA, resB.Units, resB.Fee, postB)
 		}
 
-		// ---- builder
+		// ---- builder (same object)
 		build := "skip"
 		{
-			db := newState()
+			db := c.newState(base, bals)
 			parentBlk, err := chain.NewStatelessBlock(ids.Empty, base-1000, 0, nil, ids.Empty, &block.Context{})
 			if err != nil {
 				panic(err)
@@ -345,21 +649,29 @@ func TestVerifC07(t *testing.T) {
 			mp := &c07Mempool{txs: []*chain.Transaction{tx}}
 			b := chain.NewBuilder(trace.Noop, rf, &logging.NoLog{}, mm, bh, mp, vw, metrics, chain.NewDefaultConfig())
 			eb, out, err := b.BuildBlock(ctx, &block.Context{}, parent)
-			if err != nil {
+			post, _ := new(big.Int), false
+			if err == nil {
+				post, _ = c.balOf(out.View, sks[0])
+			}
+			switch {
+			case err != nil:
 				build = "err:" + verifx.ClassErr(err)
-			} else if len(eb.StatelessBlock.Txs) == 1 {
+			case len(eb.StatelessBlock.Txs) == 1:
 				res := out.ExecutionResults.Results[0]
 				build = fmt.Sprintf("inc:%d", res.Fee)
-				included("Builder.BuildBlock", res, out.ExecutionResults.UnitPrices, balOf(out.View))
+				included("Builder.BuildBlock", res, out.ExecutionResults.UnitPrices, post)
+			case post.Cmp(preBal) != 0:
+				viol("charged-for-excluded-tx", "Builder.BuildBlock skipped the tx but the sponsor balance went %s -> %s", preBal, post)
 			}
 		}
 		r.Emit(l, fmt.Sprintf("adm=%s proc=%s build=%s", adm, proc, build))
-		for _, p := range pending {
-			p()
-		}
+		flush()
 		r.Count("adm:" + adm)
 		r.Count("proc:" + strings.SplitN(proc, ":", 2)[0])
 		r.Count("build:" + strings.SplitN(build, ":", 2)[0])
+		if f[4] != "-" {
+			r.Count("rules-change")
+		}
 		if fee.IsUint64() && fee.Uint64() > maxFee {
 			r.Distinct(l)
 			r.Count("fee>maxfee")
